@@ -363,7 +363,9 @@ func simulatePending(placed []*block, dirBlock map[*Dir]*block, valBlock map[*Di
 				max = held
 			}
 		}
-		if d.Next != nil {
+		if d.Next != nil && (b != sorted[0] || held < 2) {
+			// the pointer to a chained directory takes a slot - but the reader looks at it (in the
+			// first directory) only when fewer than two references are pending after the entries
 			held++
 			if held > max {
 				max = held
